@@ -19,6 +19,7 @@ def check(tree, rep, tier='quick', seed=0):
     R.k10_refusal(core, rep)
     R.k18_cli_store_identity(core, rep)
     R.k18b_write_reaches_the_file(core, rep)
+    R.k35_store_loaded_eagerly(core, rep)
     R.k11_input_gate(core, rep)          # nothing outside InputStore edits the configuration that is written back
     R.k11e_parser_options(core, rep)     # what write-back wrote is read back whole by the next sitting
     R.k11g_parser_objects_untouched(core, rep)
